@@ -354,7 +354,7 @@ def shard_pair(args):
 
 TAG_DEFAULT_VALUES = ["d", "d e", 49, 8.5, True]
 RECORD_TAG_VALUES = [None, "r", "r,s", 7, 0.25]
-FIELD_VALUES = [0, 1, -3, 10**20, 0.5, -2.25, 1e100, 1e-7, True, False, "s", ""]
+FIELD_VALUES = [0, 1, -3, 10**20, 0.5, -2.25, 1e100, 1e-7, True, False, "s", "", 1.0, 0.0]
 RESOLUTIONS = [None, 1, 10, 60]
 CREATED = [0.0, 0.5, 9.999, 10.0, 59.5, 60.0, 61.25, 1600000000.123456, 1759400000.75,
            4500000000.0]
@@ -437,7 +437,7 @@ def run_history(case):
     return None
 
 
-HISTORY_PAYLOADS = [{"f": 1}, {"t": "r", "f": 1}, {"t": "s", "u": "w", "f": 2}, {"u": "w", "f": 1},
+HISTORY_PAYLOADS = [{"f": True}, {"f": 1.0}, {"f": False, "g": 0.0}, {"f": 1}, {"t": "r", "f": 1}, {"t": "s", "u": "w", "f": 2}, {"u": "w", "f": 1},
                     {"f": 1, "g": "x"}]
 
 
